@@ -93,7 +93,7 @@ where
         cases,
         failure_persistence: None,
         rng_seed: RngSeed::Fixed(seed),
-        max_shrink_iters: 4000,
+        max_shrink_iters: std::env::var("VERIF_MAX_SHRINK").ok().and_then(|x| x.parse().ok()).unwrap_or(4000),
         max_global_rejects: 1 << 30,
         ..Config::default()
     };
